@@ -55,6 +55,8 @@ type childSpec struct {
 	HashDelay  int
 	FsizeLimit int64 // >0: RLIMIT_FSIZE of the child: writes beyond this file offset fail (disk-full like fault)
 	Segment    int   // >0: a read on the transport returns at most this many bytes (records arrive in pieces)
+	CutOrdinal int   // Kind "cut": this data stream (ordinal >= 1) ends (FIN) at byte CutOffset of the sender's
+	CutOffset  int64 // direction while every other stream goes on
 }
 
 type childResult struct {
@@ -64,6 +66,7 @@ type childResult struct {
 	Infos            []childInfo // first FileResumeInfo per file in wire order
 	Frames           []childFrame
 	Hits             int
+	StreamBytes      map[int]int64 // bytes the sender wrote per stream ordinal (for placing a cut)
 }
 type childInfo struct {
 	FileID string
@@ -117,7 +120,11 @@ func childMain(sp childSpec) int {
 	}
 	tap := &verifkit.Tap{}
 	pair, err := p.newPair(func(int) verifkit.MemOptions {
-		return verifkit.MemOptions{QUICVisibility: sp.QUICVis, Tap: tap, Segment: sp.Segment}
+		o := verifkit.MemOptions{QUICVisibility: sp.QUICVis, Tap: tap, Segment: sp.Segment}
+		if sp.Kind == "cut" && sp.CutOrdinal >= 1 {
+			o.Fault = &verifkit.Fault{Kind: verifkit.FaultTruncate, Ordinal: sp.CutOrdinal, Dir: verifkit.AtoB, Offset: sp.CutOffset}
+		}
+		return o
 	})
 	if err != nil {
 		return 3
@@ -183,6 +190,12 @@ func childMain(sp childSpec) int {
 		if r.Type == verifnet.WResumeInfo && !seen[r.StreamID] {
 			seen[r.StreamID] = true
 			out.Infos = append(out.Infos, childInfo{FileID: r.FileID, Total: r.Total, Bitmap: hex.EncodeToString(r.Bitmap), Last: r.LastVer, Key: r.StreamID})
+		}
+	}
+	out.StreamBytes = map[int]int64{}
+	for k, n := range tap.Counts() {
+		if k[1] == int(verifkit.AtoB) {
+			out.StreamBytes[k[0]] = n
 		}
 	}
 	for k := range tap.Counts() {
